@@ -170,8 +170,11 @@ AvailViol(n, e) ==
 \* each of which had sent this node a vote for that very block (a timeout for that very round, with that reported round)
 SeenAfter(n, e) ==
   LET vs == LoggedKinds(e, "vote")  ts == LoggedKinds(e, "timeout")
-      v1 == IF e.k = "Vote" /\ e.ok THEN seen[n].votes \cup {<<B(e.in.blk), e.in.author>>} ELSE seen[n].votes
-      t1 == IF e.k = "Timeout" /\ e.ok THEN seen[n].tos \cup {<<e.in.round, e.in.author, e.in.hqr>>} ELSE seen[n].tos
+      \* a vote / timeout counts as received only if it reached the node correctly signed -- judged by the harness with Vote::verify /
+      \* Timeout::verify outside the node (`in.sig_ok`), not by the node's own acceptance
+      sig == "sig_ok" \notin DOMAIN e.in \/ e.in.sig_ok
+      v1 == IF e.k = "Vote" /\ e.ok /\ sig THEN seen[n].votes \cup {<<B(e.in.blk), e.in.author>>} ELSE seen[n].votes
+      t1 == IF e.k = "Timeout" /\ e.ok /\ sig THEN seen[n].tos \cup {<<e.in.round, e.in.author, e.in.hqr>>} ELSE seen[n].tos
   IN [votes |-> v1 \cup {<<B(vs[i].blk), n>> : i \in 1..Len(vs)},
       tos   |-> t1 \cup {<<ts[i].round, n, Rnd(B(ts[i].hq))>> : i \in 1..Len(ts)},
       \* C05 ("certified"): the harness inspects every proposal that travels to a real node (`in.qc_ok`: the QC is the exact genesis QC or a
